@@ -45,7 +45,7 @@ func vC10(spec vSpec, maxSteps int, withSub bool) {
 	formA := vChoose(2) == 0
 	last := k
 	if !formA {
-		last = vNondetString(1, 1, "ab")
+		last = vNondetString(1, 1, "ab") // a final wildcard is outside the encoded domain (DESIGN 0.13)
 		vAssume(last != k)
 	}
 	if n > 1 {
@@ -105,7 +105,11 @@ func vC10(spec vSpec, maxSteps int, withSub bool) {
 		vCover("formB")
 		var Fn []interface{}
 		for _, x := range F {
-			Fn = append(Fn, refStepKey(last, x)...)
+			if last == "*" {
+				Fn = append(Fn, refStepWild(x)...)
+			} else {
+				Fn = append(Fn, refStepKey(last, x)...)
+			}
 		}
 		for _, x := range refMembers(Fn) {
 			xm, ok := x.(map[string]interface{})
